@@ -50,6 +50,9 @@ var c02Pool = []string{
 	// literal dots in front of the first variable of routes that have no complete literal first segment
 	`/sm.{ext}`,
 	`/v1.0[/{x}]`,
+	// catch-all variables at the end and in the middle
+	`/files/{f:.+}`,
+	`/rest/{r:.*}/end`,
 }
 
 // values tried in addition to c02Values for one pattern
@@ -57,24 +60,29 @@ var c02Extra = map[string][]string{
 	`/rp/{p:(?:\d{4})-(?:0[1-9]|1[0-2])}`: {"2024-07", "2024-13", "2024-1", "024-07", "2024-07x"},
 	`/tk/{t:(?:[a-z]+)(?:\d+)}/k`:         {"abc123", "a1", "abc", "1a", "ab12c"},
 	`/pic/{kind:(?:jpe?g)|(?:png)}/x`:     {"jpg", "jpeg", "png", "jpgXYZ", "pn", "xpng"},
+	// a line feed inside the value of a trailing catch-all variable ('.' does not match it)
+	`/{all}`:           {"a\nb", "\nb", "a\n\nb"},
+	`/files/{f:.+}`:    {"a\nb", "\nb", "a\n/b", "a/b\nc"},
+	`/rest/{r:.*}/end`: {"a\nb", "\n"},
 }
 
 var c02Values = []string{"1", "20", "ab", "a.b", "é", "a b", "0", "a/b", "", "2024", "x.css", "1.0", "007", "123"}
 
 type c02Case struct {
-	Pattern string `json:"pattern"`
-	Cache   int    `json:"cache"` // 0 = caching disabled
-	First   string `json:"first_path"`
-	Strict  bool   `json:"strict_last_slash,omitempty"`
-	Twin    string `json:"twin,omitempty"`                             // "", "before", "after": a same-shape route with other variable names under POST
-	Head    bool   `json:"head_requests,omitempty"`                    // the history is requested with HEAD (served by the GET route)
-	Redisp  bool   `json:"redispatch,omitempty"`                       // the route's handler re-dispatches (HandleContext) to a static and to another dynamic route
-	Enc     bool   `json:"use_encoded_path,omitempty"`                 // the router matches the ESCAPED request path (UseEncodedPath): the handlers see the escaped substrings
-	NA      bool   `json:"method_not_allowed_probe_first,omitempty"`   // HandleMethodNotAllowed is on and every request is preceded by a DELETE (405) request for the same path
-	GVar    bool   `json:"global_var_defined_late,omitempty"`          // instead of a pattern of the pool: a global variable is defined AFTER its name was used as a plain variable
-	Mut     bool   `json:"handler_edits_params,omitempty"`             // the route's handler edits the Params map it was given, after reading it
-	EncFwd  bool   `json:"forwarded_under_use_encoded_path,omitempty"` // instead of a pattern of the pool: requests with non-default escapes on a UseEncodedPath router, forwarded by their handler to another path with HandleContext
-	Dump    bool   `json:"dump_routes,omitempty"`                      // the router's read-only inspection API (String, Routes, IterateRoutes, NamedRoutes) is called between registration and the requests and again between them
+	Pattern  string `json:"pattern"`
+	Cache    int    `json:"cache"` // 0 = caching disabled
+	First    string `json:"first_path"`
+	Strict   bool   `json:"strict_last_slash,omitempty"`
+	Twin     string `json:"twin,omitempty"`                                    // "", "before", "after": a same-shape route with other variable names under POST
+	Head     bool   `json:"head_requests,omitempty"`                           // the history is requested with HEAD (served by the GET route)
+	Redisp   bool   `json:"redispatch,omitempty"`                              // the route's handler re-dispatches (HandleContext) to a static and to another dynamic route
+	Enc      bool   `json:"use_encoded_path,omitempty"`                        // the router matches the ESCAPED request path (UseEncodedPath): the handlers see the escaped substrings
+	NA       bool   `json:"method_not_allowed_probe_first,omitempty"`          // HandleMethodNotAllowed is on and every request is preceded by a DELETE (405) request for the same path
+	GVar     bool   `json:"global_var_defined_late,omitempty"`                 // instead of a pattern of the pool: a global variable is defined AFTER its name was used as a plain variable
+	Mut      bool   `json:"handler_edits_params,omitempty"`                    // the route's handler edits the Params map it was given, after reading it
+	GroupSib bool   `json:"sibling_routes_in_groups_with_variables,omitempty"` // instead of a pattern of the pool: groups whose prefix holds variables, each with several sibling routes that have variables of their own
+	EncFwd   bool   `json:"forwarded_under_use_encoded_path,omitempty"`        // instead of a pattern of the pool: requests with non-default escapes on a UseEncodedPath router, forwarded by their handler to another path with HandleContext
+	Dump     bool   `json:"dump_routes,omitempty"`                             // the router's read-only inspection API (String, Routes, IterateRoutes, NamedRoutes) is called between registration and the requests and again between them
 }
 
 var c02VarName = regexp.MustCompile(`\{([a-z]+)`)
@@ -178,6 +186,7 @@ func c02Gen(tier string, emit func(c02Case)) {
 	emit(c02Case{GVar: true})
 	for _, cc := range []int{0, 1, 2} {
 		emit(c02Case{EncFwd: true, Cache: cc})
+		emit(c02Case{GroupSib: true, Cache: cc})
 	}
 	for _, pat := range c02Pool {
 		for _, cc := range []int{0, 2} {
@@ -282,6 +291,9 @@ func c02Run(c c02Case, st *fw.Stats) []fw.Viol {
 	}
 	if c.EncFwd {
 		return c02EncodedForward(c, st, add, &viols)
+	}
+	if c.GroupSib {
+		return c02GroupSiblings(c, st, add, &viols)
 	}
 	pt, err := refmodel.CachedPattern(refmodel.Norm(c.Pattern, c.Strict))
 	if err != nil {
@@ -528,6 +540,81 @@ func c02Redispatch(c c02Case, st *fw.Stats, add func(sig, msg string), viols *[]
 	return *viols
 }
 
+// c02GroupSiblings: groups (plain, nested, and a controller) whose prefix holds 1-3 variables, each with several
+// sibling routes that have variables of their own; every route is requested (twice, in two orders) and must report
+// exactly its own variable names with the substrings of the path.
+func c02GroupSiblings(c c02Case, st *fw.Stats, add func(sig, msg string), viols *[]fw.Viol) []fw.Viol {
+	tails := []string{"/users/{id}", "/repos/{name}", "/x/{a}/{b}", "/plain", "/opt[/{o}]", `/n/{k:\d+}`, "/users/{uid}/posts/{pid}"}
+	for _, prefixes := range [][]string{{"/{org}"}, {"/o/{org}"}, {"/{org}/{team}"}, {"/{org}", "/{team}"}, {"/g", "/{org}"}, {"/{a1}/{a2}/{a3}"}, {"/{org}", "/t/{team}", "/{unit}"}} {
+		var opts []func(*rux.Router)
+		if c.Cache > 0 {
+			opts = append(opts, rux.CachingWithNum(uint16(c.Cache)))
+		}
+		r := rux.New(opts...)
+		var seen string
+		full := strings.Join(prefixes, "")
+		var reg func(i int)
+		reg = func(i int) {
+			if i == len(prefixes) {
+				for _, t := range tails {
+					r.GET(t, func(ctx *rux.Context) { seen = canonParams(ctx.Params) })
+				}
+				return
+			}
+			r.Group(prefixes[i], func() { reg(i + 1) })
+		}
+		if pv := try(func() { reg(0) }); pv != nil {
+			add("register:panic", fmt.Sprintf("groups %v with sibling routes %v: registration panicked: %v", prefixes, tails, pv))
+			continue
+		}
+		type rq struct {
+			pat  *refmodel.Pattern
+			path string
+		}
+		var reqs []rq
+		varRe := regexp.MustCompile(`\{[a-z0-9]+(?::[^}]*\})?\}?`)
+		for _, t := range tails {
+			pt, err := refmodel.CachedPattern(refmodel.Norm(full+t, false))
+			if err != nil {
+				panic(err)
+			}
+			for _, vals := range [][]string{{"acme", "core", "u9", "5", "7"}, {"1", "2", "3", "4", "6"}} {
+				k := 0
+				concrete := varRe.ReplaceAllStringFunc(strings.NewReplacer("[", "", "]", "").Replace(full+t), func(string) string { k++; return vals[(k-1)%len(vals)] })
+				reqs = append(reqs, rq{pt, concrete})
+			}
+		}
+		order := append(append([]rq{}, reqs...), reqs...)
+		for i, j := len(reqs), len(order)-1; i < j; i, j = i+1, j-1 {
+			order[i], order[j] = order[j], order[i]
+		}
+		for _, q := range order {
+			st.Evals++
+			st.Nontrivial++
+			seen = "<handler not run>"
+			np := refmodel.Norm(q.path, false)
+			if !q.pat.Matches(np) {
+				continue
+			}
+			var ps map[string]string
+			if pv := try(func() { _, p, _ := r.Match("GET", q.path); ps = p }); pv != nil {
+				add("match:panic", fmt.Sprintf("groups %v: Match(GET,%q) panicked: %v", prefixes, q.path, pv))
+				continue
+			}
+			if e := checkParams(q.pat, np, ps); e != "" {
+				add("params:group-siblings", fmt.Sprintf("groups %v (cache=%d) holding the sibling routes %v: GET %q (route %s): %s", prefixes, c.Cache, tails, q.path, q.pat.Path, e))
+				continue
+			}
+			if _, pv := serve(r, "GET", q.path); pv != nil {
+				add("serve:panic", fmt.Sprintf("groups %v: ServeHTTP(GET %q) panicked: %v", prefixes, q.path, pv))
+			} else if seen != canonParams(ps) {
+				add("params:group-siblings", fmt.Sprintf("groups %v (cache=%d) holding the sibling routes %v: GET %q (route %s): the handler saw {%s}, Match reported {%s}", prefixes, c.Cache, tails, q.path, q.pat.Path, seen, canonParams(ps)))
+			}
+		}
+	}
+	return *viols
+}
+
 // c02EncodedForward: on a UseEncodedPath router a handler rewrites URL.Path and forwards the request with HandleContext.
 // The request was spelled with escapes (default and non-default ones, so URL.RawPath is set or empty); the forwarded
 // dispatch must capture the parameters of the NEW path.
@@ -578,8 +665,8 @@ func c02EncodedForward(c c02Case, st *fw.Stats, add func(sig, msg string), viols
 var c02Spec = fw.Spec[c02Case]{
 	ID:    "C02",
 	Level: "model_checking",
-	Rule: "complete product per pattern (22 patterns; a sibling router built from the same option values and holding the pattern with other variable names is served every request first): every ordered pair (p,q) of candidate paths (all value tuples over 12 values substituted at every optional depth, plus perturbations incl. trailing multi-byte white space) requested as the history p,q,p,q on routers with cache off / capacity 1 / capacity 2, via Match and ServeHTTP (also behind a 405 probe for the same path, with a global variable that is defined only after its name was used, with UseEncodedPath, where the escaped path is what is matched and captured, and with a handler that edits the Params it was given); " +
-		"oracle = back-tracking reference matcher (all decompositions); plus every matching path re-dispatched by its handler (HandleContext) to a static, a dynamic and an optional route, whose handlers must see exactly their own parameters; requests spelled with default and non-default escapes on a UseEncodedPath router whose handler rewrites URL.Path and forwards with HandleContext; non-trivial = a request whose path matches the dynamic pattern",
+	Rule: "complete product per pattern (24 patterns; a sibling router built from the same option values and holding the pattern with other variable names is served every request first): every ordered pair (p,q) of candidate paths (all value tuples over 12 values substituted at every optional depth, plus perturbations incl. trailing multi-byte white space) requested as the history p,q,p,q on routers with cache off / capacity 1 / capacity 2, via Match and ServeHTTP (also behind a 405 probe for the same path, with a global variable that is defined only after its name was used, with UseEncodedPath, where the escaped path is what is matched and captured, and with a handler that edits the Params it was given); " +
+		"oracle = back-tracking reference matcher (all decompositions); plus every matching path re-dispatched by its handler (HandleContext) to a static, a dynamic and an optional route, whose handlers must see exactly their own parameters; 7 group nestings whose prefixes hold 1-3 variables, each with 7 sibling routes that have variables of their own; requests spelled with default and non-default escapes on a UseEncodedPath router whose handler rewrites URL.Path and forwards with HandleContext; non-trivial = a request whose path matches the dynamic pattern",
 	Assume: []string{"values and patterns are drawn from the stated alphabets", "handlers treat Params as read-only, except in the cases marked handler_edits_params (where the edit must stay private to that request)"},
 	Bounds: func(tier string) map[string]any {
 		n := 0
